@@ -32,7 +32,7 @@ COPY_PREFIXES = ["SPDX-FileCopyrightText:", "SPDX-SnippetCopyrightText:", "SPDX-
                  "SPDX-FileCopyrightText: Copyright", "SPDX-FileCopyrightText: Copyright (C)", "SPDX-FileCopyrightText: Copyright ©",
                  "Copyright", "Copyright (C)", "Copyright (c)", "Copyright ©", "©"]
 FORMS = ["single", "inline-multi", "block-multi"]
-DECOS = ["none", "frame", "indent-spaces", "indent-tab", "trailing-blanks", "own-terminator-twice", "foreign-terminators-ab", "foreign-terminators-ba"]
+DECOS = ["none", "frame", "indent-spaces", "indent-tab", "trailing-blanks", "blanks-after-terminator", "own-terminator-twice", "foreign-terminators-ab", "foreign-terminators-ba"]
 
 
 def styles():
@@ -88,6 +88,10 @@ def make_lines(cls, form, deco, body, kind):
         line = "\t" + line
     elif deco == "trailing-blanks":
         line = line + "   \t"
+    elif deco == "blanks-after-terminator":
+        if form != "inline-multi":
+            return None
+        post = post + "  \t"
     elif deco == "own-terminator-twice":
         if form != "inline-multi":
             return None
